@@ -156,6 +156,21 @@ def _run(case, modname, devs):
         name_arg = full
     facts = dict(fn=fn, entry=case['entry'])
     n_before = len(EVENTS)
+    # ---- history: earlier selections of the SAME module (other api), optionally used so that the module is loaded ----
+    preloaded = False
+    for pre in case.get('prelude', []):
+        old_name = modname + ('/' + pre['suffix'] if pre.get('suffix') else '')
+        if pre.get('via') == 'obj':
+            mido.set_backend(Backend(modname, api=pre.get('suffix'), use_environ=True))
+        else:
+            saved_env_bk = os.environ.pop('MIDO_BACKEND', None)
+            mido.set_backend(old_name)
+            if saved_env_bk is not None:
+                os.environ['MIDO_BACKEND'] = saved_env_bk
+        if pre.get('use'):
+            mido.get_input_names()
+            preloaded = True
+    n_pre = len(EVENTS)
     if case['entry'] == 'method':
         kw = {}
         if bk_api:
@@ -177,12 +192,21 @@ def _run(case, modname, devs):
             return [fail('set_backend-object', 'mido.backend is not the Backend object passed to set_backend', **facts)]
     out = []
     imported = [e for e in EVENTS[n_before:] if e[0] == 'import']
-    if case['load']:
+    if preloaded:
+        if len(imported) != 1:
+            out.append(fail('import-count', f'module imported {len(imported)} times over the history', **facts))
+        if not case['load'] and bk.loaded:
+            out.append(fail('eager-import', 'a new Backend object is loaded before its first use', **facts))
+    elif case['load']:
         if len(imported) != 1 or modname not in sys.modules:
             out.append(fail('load-true-not-loaded', f'load=True but import events {imported}', **facts))
     else:
         if imported or modname in sys.modules or bk.loaded:
             out.append(fail('eager-import', f'module imported before first use: {imported}', **facts))
+    if case['entry'] != 'method' and mido.backend is not bk:
+        out.append(fail('set_backend-rebinding', 'mido.backend is not the newly selected backend', **facts))
+        return out
+    del n_pre
     exp_api = call_api or bk_api or suffix
     if bk.name != modname or bk.api != (bk_api or suffix):
         out.append(fail('backend-name-api', f'name/api = {bk.name!r}/{bk.api!r}, expected {modname!r}/'
@@ -318,6 +342,14 @@ def grid_shard(rec, shard):
     for i, case in enumerate(grid()):
         if i % n == k:
             rec.check(case, distinct=True, sample=(i % 4001 == 0))
+            if case['entry'] != 'method' and i % 5 == 0:
+                # the same selection made after an earlier selection of the same module with another api
+                for pre in ([{'suffix': 'OLD', 'use': True}], [{'suffix': 'OLD', 'use': False}],
+                            [{'suffix': None, 'use': True, 'via': 'obj'}],
+                            [{'suffix': 'OLD', 'use': True}, {'suffix': 'OLDER', 'use': True, 'via': 'obj'}]):
+                    c = dict(case)
+                    c['prelude'] = pre
+                    rec.check(c, distinct=True, sample=False, classes=('history',))
             if case['fn'].startswith('open') and i % 7 == 0:
                 c = dict(case)
                 c['flags'] = {'open_input': {'virtual': True, 'callback': 'CB'},
